@@ -4,6 +4,7 @@
 -/
 import GridVerse.Model.Codec
 import GridVerse.Model.Heap
+import GridVerse.Model.Win
 namespace GV.Driver
 open GV.Codec
 
@@ -306,6 +307,47 @@ def handleHeap (op : String) : P String := do
       | _ => failure
   | _ => failure
 
+/-! ### winnability ops -/
+
+def showActs (l : List Action) : String := " ".intercalate (l.map fun a => toString a.value)
+
+/-- run a plan like `checkPlan`, also returning the state reached and the number of steps used -/
+def runPlan (fs : List TransAtom) (stop : State → Action → State → Bool) (goal : State → Bool) :
+    State → List Action → DrawSt → Nat → String
+  | s, [], _, k => (if goal s then "WIN " else "SHORT ") ++ toString k ++ " " ++ showState s
+  | s, a :: as, d, k =>
+    if goal s then "WIN " ++ toString k ++ " " ++ showState s else
+    match runChain fs s a d with
+    | .error e => showErr e
+    | .ok (s', d') =>
+      if goal s' then "WIN " ++ toString (k + 1) ++ " " ++ showState s'
+      else if stop s a s' then "LOSE " ++ toString (k + 1) ++ " " ++ showState s'
+      else runPlan fs stop goal s' as d' (k + 1)
+
+def handleWin (op : String) : P String := do
+  match op with
+  | "win" => do
+      let mode ← tok
+      let fs ← pCounted pTransAtom
+      let t ← pTermFn 8
+      let goal ← (do match (← tok) with | "e" => pure goalExit | "m" => pure goalMemory | _ => failure)
+      let s ← pState
+      let stop := stopOf t
+      match mode with
+      | "check" => do
+          let acts ← pCounted pAction
+          let d ← pDraw
+          pure (runPlan fs stop goal s acts d 0 ++ " | " ++ showBool (checkPlan fs stop goal s acts d))
+      | "solve" =>
+          match solve fs stop goal s with
+          | none => pure "NOPLAN"
+          | some plan => pure ("PLAN " ++ showActs plan ++ " | " ++ showBool (checkPlan fs stop goal s plan ⟨[], []⟩))
+      | "empty" => pure ("PLAN " ++ showActs (planEmpty s) ++ " | " ++ showBool (checkPlan fs stop goal s (planEmpty s) ⟨[], []⟩))
+      | "memory" => pure ("PLAN " ++ showActs (planMemory s) ++ " | " ++ showBool (checkPlan fs stop goal s (planMemory s) ⟨[], []⟩))
+      | "keydoor" => pure ("PLAN " ++ showActs (planKeydoor s) ++ " | " ++ showBool (checkPlan fs stop goal s (planKeydoor s) ⟨[], []⟩))
+      | _ => failure
+  | _ => failure
+
 def handleLine (line : String) : String :=
   match (line.splitOn " ").filter (· ≠ "") with
   | [] => "bad-op"
@@ -328,6 +370,9 @@ def handleLine (line : String) : String :=
           | none =>
             match run handleHeap with
             | some o => o
-            | none => "bad-op"
+            | none =>
+              match run handleWin with
+              | some o => o
+              | none => "bad-op"
 
 end GV.Driver
